@@ -320,6 +320,18 @@ class MRunner:
                 n.make_memmap_from_tensor(key, t)
                 bound = dict(children(n)).get(key)
                 osx = [Sym("makememmap"), W.path_sx(p + (key,)), W.leaf_sx(bound)]
+            elif k == "makememmap_nested":
+                # make_memmap_from_tensor with a nested key: _make_memmap_subtd binds a new nested tensordict (no memmap prefix here)
+                if is_lazy(n):
+                    return None
+                k1 = f"q{len(self.ops_sx)}"
+                t = torch.full(list(n.batch_size), op["v"], dtype=torch.int64)
+                W.uid.next += 1
+                osx = [Sym("makememmapnested"), W.path_sx(p + (k1,)), W.uid.next - 1, "x", W.leaf_sx(t)]   # placeholder when the call raises
+                n.make_memmap_from_tensor((k1, "x"), t)
+                node = dict(children(n)).get(k1)
+                bound = dict(children(node)).get("x")
+                osx = [Sym("makememmapnested"), W.path_sx(p + (k1,)), W.U(node), "x", W.leaf_sx(bound)]
             elif k == "memmap":
                 if any(is_lazy(m) for _, m in walk_nodes(n)):
                     return None
@@ -345,6 +357,10 @@ class MRunner:
             elif k == "names":
                 if n.batch_dims == 0:
                     return None
+                if any(ch in str(x) for x in p for ch in ".,"):
+                    # a nested node under a key that contains a separator: with names of its own, unflatten_keys(separator) of the
+                    # nodes above cannot coerce them ("refine_names") and raises — key splitting is not transcribed by the model
+                    return None
                 names = [f"d{len(self.ops_sx)}x{i}" for i in range(n.batch_dims)] if op["which"] % 3 else None
                 osx = [Sym("names"), W.path_sx(p), some(names)]
                 n.names = names
@@ -352,6 +368,10 @@ class MRunner:
                 if n.batch_dims == 0 or is_lazy(n) or any(x.startswith("#") for x in p):
                     return None
                 bs = list(n.batch_size)[:-1]
+                if any(len(v.batch_size) < len(bs) or list(v.batch_size[:len(bs)]) != bs for _, v in children(n) if not isinstance(v, torch.Tensor)):
+                    # _batch_size_setter would re-assign the batch size of such a nested tensordict as well (an edge case the
+                    # model does not transcribe: it arises only after that nested node was shrunk below its parent)
+                    return None
                 osx = [Sym("bs"), W.path_sx(p), bs]
                 n.batch_size = bs
             elif k == "gc":
@@ -453,8 +473,8 @@ class MRunner:
             for op in self.prog["ops"]:
                 if self.do(op) == "abort":
                     break
-            # Model.repo: the C06 repairs (rebind, metadata, memmap_ under lock) and the C05 lock-graph repairs (D7, D55) applied
-            line = sx([Sym("hist"), [True, True, True, True, True], True, st, self.ops_sx])
+            # Model.repo: the C06 repairs (rebind, metadata, memmap_ under lock, D68, D69) and the C05 lock-graph repairs (D7, D55) applied
+            line = sx([Sym("hist"), [True] * 7, True, st, self.ops_sx])
         finally:
             self.W.close()
         return line, self.impl
@@ -471,7 +491,7 @@ def gen_mprog(rng, nops):
     spec["lock"] = rng.choice(["lock_", "lock_", "lock_", "memmap_", "none"])
     ops = []
     kinds = ["read"] * 12 + ["inplace"] * 3 + ["lock", "unlock", "unlock", "lock", "set", "set", "setnode", "del", "promote", "promote", "makememmap",
-                                                 "memmap", "names", "bs", "gc"]
+                                                 "makememmap_nested", "memmap", "names", "bs", "gc"]
     palette = [rng.randrange(0, 64) for _ in range(rng.choice([3, 5, 8]))]     # few distinct read forms per history: hits happen
     nodes = [0, 0, rng.randrange(0, 7), rng.randrange(0, 7)]
     for _ in range(nops):
